@@ -157,7 +157,7 @@ def run(ctx):
                 if dk == "gcov" and dparam is None and e - s > 0:
                     cm = np.cov(X[s:e], rowvar=False, ddof=0).reshape(p, p)
                     ev = np.linalg.eigvalsh(cm)
-                    if want is not None and ev.min() <= 1e-9 * max(1.0, ev.max()):
+                    if ev.min() <= 1e-9 * max(1.0, ev.max()):
                         # numerically singular sample covariance: log det is pure rounding noise, whether the documented error is raised
                         # depends on the sign of that noise; neither a value nor the error can be demanded (outside "moderate dynamic range")
                         ctx.count("outcome", "numerically-singular: not compared")
